@@ -10,7 +10,7 @@ from sx import Sym
 
 RULE = ("seeded interleavings (length<=14) over 2-4 instances of each item-holding block class (OpticalSetupBlock, "
         "TemporalEventsData, EMG, Data3D, ForceTorque3D, ForcePlatformsCalibrationDataBlock, ForcePlatformsDataBlock): construct "
-        "without items, construct with an own item list (where the constructor takes one), decode the same bytes again, add an "
+        "without items, construct with an own item list (where the constructor takes one), decode the same bytes again (from two streams, or from ONE stream rewound in between), add an "
         "item, remove an item, edit an item in place (a sample, a label, an index), assign one block's item list (the list its getter returns, "
         "a tuple of its items, or ONE list object given to two blocks) through the list setters of Data3D / ForceTorque3D / ForcePlatformsDataBlock, encode; items have 2 frames, in one run of eight "
         "1023/1024/1025/4096 frames (wholly missing, wholly present, with gaps); after every step the items (by identity) and the encoding of EVERY instance are compared "
@@ -121,7 +121,8 @@ def construct(kind, items):
         b = ForceTorque3D(100, N, g, r, g)
     elif kind == "platcalib":
         from basictdf.tdfForcePlatformsCalibration import ForcePlatformsCalibrationDataBlock
-        return ForcePlatformsCalibrationDataBlock() if items is None else ForcePlatformsCalibrationDataBlock(platforms=list(items))
+        # (this constructor fills a list of the block's own: the caller's list is handed over as it is and edited later)
+        return ForcePlatformsCalibrationDataBlock() if items is None else ForcePlatformsCalibrationDataBlock(platforms=items)
     else:
         from basictdf.tdfForcePlatformsData import ForcePlatformsDataBlock
         b = ForcePlatformsDataBlock(0.0, 100, N)
@@ -177,6 +178,8 @@ def random_action(rng, n_insts):
     r = rng.random()
     if r < 0.22 or n_insts < 2:
         return ("construct", None if rng.random() < 0.55 else rng.randrange(0, 3))
+    if r < 0.25:
+        return ("caller-list",)
     if r < 0.30:
         a, b = rng.sample(range(n_insts), 2)
         return ("assign", a, b, rng.choice(["getter", "one-list", "tuple"]))
@@ -201,6 +204,8 @@ def scripted_plans():
 def one_run(ctx, kind, rng, plan=None, steps=0):
     insts, ids, nid = [], {}, [100]
     ops, obs, srcs = [], [], {}
+    caller_lists = []
+    streams = []          # kept alive: a decoder that borrowed the stream's buffer keeps borrowing it
 
     def reg(o):
         ids[id(o)] = nid[0]
@@ -222,12 +227,21 @@ def one_run(ctx, kind, rng, plan=None, steps=0):
                     mids = [reg(o) for o in its]
                     insts.append(construct(kind, its))
                     ops.append([Sym("construct"), mids])
+                    if kind == "platcalib":
+                        caller_lists.append(its)
             elif act[0] == "decode":
                 src = act[1]
                 enc = A.encode(insts[src])
                 srcs[len(ops) + 1] = enc
-                dec = type(insts[src])._build(io.BytesIO(enc), insts[src].format.value)
-                dec2 = type(insts[src])._build(io.BytesIO(enc), insts[src].format.value)
+                if rng.random() < 0.5:
+                    dec = type(insts[src])._build(io.BytesIO(enc), insts[src].format.value)
+                    dec2 = type(insts[src])._build(io.BytesIO(enc), insts[src].format.value)
+                else:                     # ONE stream object read twice (rewound in between), as a program re-reading a buffer does
+                    st = io.BytesIO(enc)
+                    dec = type(insts[src])._build(st, insts[src].format.value)
+                    st.seek(0)
+                    dec2 = type(insts[src])._build(st, insts[src].format.value)
+                    streams.append(st)
                 m1 = [reg(o) for o in items_of(kind, dec)]
                 m2 = [reg(o) for o in items_of(kind, dec2)]
                 insts += [dec, dec2]
@@ -241,6 +255,14 @@ def one_run(ctx, kind, rng, plan=None, steps=0):
                 k = act[2] if act[2] is not None else rng.randrange(len(its))
                 edit_item(kind, its[k], rng)
                 ops.append([Sym("edit"), i, k])
+            elif act[0] == "caller-list":
+                if not caller_lists:
+                    continue
+                lst = rng.choice(caller_lists)
+                lst.append(new_item(kind, rng))          # the caller goes on using the list it gave to a constructor
+                if len(lst) > 1:
+                    del lst[0]
+                ops.append([Sym("edit"), 9999, 0])        # for the model: nothing happened
             elif act[0] == "assign":
                 # only where the library has a list setter that fills a container of the instance's own
                 attr = {"data3d": "tracks", "force3d": "tracks", "platdata": "platforms"}.get(kind)
@@ -342,13 +364,14 @@ def run(ctx):
                 pass                      # second half of a one-list assignment to two blocks: both changed, by design
             elif prev is not None and op[0] in ("add", "remove", "edit", "assign"):
                 hit = False
-                edited = prev[op[1]][0][op[2]] if op[0] == "edit" and op[2] < len(prev[op[1]][0]) else None
+                edited = prev[op[1]][0][op[2]] if op[0] == "edit" and op[1] < len(prev) and op[2] < len(prev[op[1]][0]) else None
                 for j, (before, after) in enumerate(zip(prev, snap)):
                     if edited is not None and edited in before[0]:
                         continue          # an instance that holds the very object that was edited (after a list assignment)
                     if j != op[1] and before != after:
                         what = f"items {before[0]} -> {after[0]}" if before[0] != after[0] else "its encoding changed"
-                        ctx.fail(f"{kind}: {'editing an item of' if op[0] == 'edit' else 'editing'} instance {op[1]} changed instance {j} ({what})", dict(rp, upto=i, frames=nframes),
+                        who = "the caller editing the list it had given to a constructor" if op[1] == 9999 else f"{'editing an item of' if op[0] == 'edit' else 'editing'} instance {op[1]}"
+                        ctx.fail(f"{kind}: {who} changed instance {j} ({what})", dict(rp, upto=i, frames=nframes),
                                  ident=f"{kind} instances share state")
                         hit = True
                         break
